@@ -112,7 +112,11 @@ func init() {
 		specs = append(specs, FamSpec{Prop: "C09", Profile: Profile{JWTAccess: true, RTLifespan: 7200, StatelessJWTIntrospectionFirst: true}, Depth: depth - 1, MaxGrants: 2,
 			Grants:   []Op{{Op: "authz", Client: "A", Flow: "code"}, {Op: "password", Client: "A"}, {Op: "cc", Client: "B"}},
 			RedeemBy: []string{"owner"}, RefreshBy: []string{"owner"}, RevokeBy: []string{"owner"}, Hints: []string{""}, Advances: []int{3700}, C09: true})
-		r.Bounds = map[string]any{"history_depth": depth, "max_grants": 2, "configs": "hmac x {rt validation on,off} x {hierarchic,wildcard,exact}; jwt x {on,off} x hierarchic; jwt with the stateless JWT validator registered in front of the stateful one (one level shallower)",
+		// refresh tokens that never expire (the strategy takes another path for them)
+		specs = append(specs, FamSpec{Prop: "C09", Profile: Profile{RTLifespan: -1}, Depth: depth - 1, MaxGrants: 2,
+			Grants:   []Op{{Op: "authz", Client: "A", Flow: "code"}, {Op: "password", Client: "A"}, {Op: "device", Client: "A"}},
+			RedeemBy: []string{"owner"}, RefreshBy: []string{"owner"}, RevokeBy: []string{"owner"}, Hints: []string{""}, Advances: []int{3700}, C09: true})
+		r.Bounds = map[string]any{"history_depth": depth, "max_grants": 2, "unlimited_refresh_lifetime": "hmac, refresh tokens without expiry, one level shallower", "configs": "hmac x {rt validation on,off} x {hierarchic,wildcard,exact}; jwt x {on,off} x hierarchic; jwt with the stateless JWT validator registered in front of the stateful one (one level shallower)",
 			"alphabet": "grant(code, hybrid code+token, password, device, client_credentials, oidc code) redeem refresh(owner|foreign client) revoke advance(3700s); in every reached state: every token and its mutants x hint x required scopes x caller credential"}
 		r.Rule = "explicit-state BFS over API histories; in every reached state every token ever seen (plus mutants) is introspected under the whole hint x scope x caller grid and compared with the model"
 		r.Assumptions = []string{"model liveness: issued, unexpired (1s don't-care window around expiry), not rotated/revoked/killed", "scope coverage judged by an independent reimplementation of the three scope strategies"}
